@@ -85,11 +85,23 @@ def self_writes(m):
         elif isinstance(s, ast.Call) and isinstance(s.func, ast.Attribute) \
                 and s.func.attr in MUTATORS:
             tg = [s.func.value]
+        elif isinstance(s, ast.Call) and s.args and (
+                (isinstance(s.func, ast.Attribute) and s.func.attr
+                 in MODULE_MUTATORS) or (isinstance(s.func, ast.Name)
+                                         and s.func.id in MODULE_MUTATORS)):
+            # bisect.insort(self.x, ..), heapq.heappush(self.x, ..): the
+            # library function changes its first argument in place
+            tg = [s.args[0]]
         for t in tg:
             a = base_attr(t)
             if a is not None:
                 out.setdefault(a, s)
     return out
+
+
+MODULE_MUTATORS = ('insort', 'insort_left', 'insort_right', 'heappush',
+                   'heappop', 'heapify', 'heapreplace', 'heappushpop',
+                   'shuffle')
 
 
 def _derived_from(funcs, attr, tables, meths):
@@ -160,6 +172,13 @@ def check_memo_invalidation(program, rep, rule, cls, queries, tables, what,
     changed type is not enough (the supertypes' answers change too) - the
     invalidation must be total or walk `__mro__`."""
     meths = methods_of(program, cls)
+    # property getters among the queries (`processors`, `entities`) are
+    # queries too
+    for k in [cls] + program.subclasses(cls):
+        for m in k.methods.values():
+            if m.kind == 'getter' and m.name in queries \
+                    and m not in meths.get(m.name, []):
+                meths.setdefault(m.name, []).append(m)
 
     def closure(m, seen=None):
         seen = seen if seen is not None else []
